@@ -74,6 +74,8 @@ pub struct OtiSpec {
     pub parity: u32,
     pub inband_fti: bool,
     pub al: u8,
+    /// RaptorQ: number of sub-blocks N (RFC 6330); 1 everywhere else
+    pub n: u16,
 }
 
 impl OtiSpec {
@@ -85,6 +87,7 @@ impl OtiSpec {
             parity,
             inband_fti: true,
             al: 1,
+            n: 1,
         }
     }
     pub fn build(&self) -> Result<Oti, String> {
@@ -96,7 +99,7 @@ impl OtiSpec {
                 Oti::new_reed_solomon_rs28_under_specified(self.e, self.b as u16, self.parity as u16)
                     .map_err(|e| format!("{:?}", e))?
             }
-            Fec::RaptorQ => Oti::new_raptorq(self.e, self.b as u16, self.parity as u16, 1, self.al)
+            Fec::RaptorQ => Oti::new_raptorq(self.e, self.b as u16, self.parity as u16, self.n.max(1), self.al)
                 .map_err(|e| format!("{:?}", e))?,
             Fec::Raptor => Oti::new_raptor(self.e, self.b as u16, self.parity as u16, 1, self.al)
                 .map_err(|e| format!("{:?}", e))?,
@@ -112,7 +115,7 @@ impl OtiSpec {
     }
     pub fn json(&self) -> Value {
         json!({"fec": self.fec.name(), "E": self.e, "B": self.b, "parity": self.parity,
-               "inband_fti": self.inband_fti, "Al": self.al})
+               "inband_fti": self.inband_fti, "Al": self.al, "N": self.n})
     }
 }
 
